@@ -407,6 +407,7 @@ func (w faultyW) GetLatest() ([]byte, error) {
 // ---------------------------------------------------------------- C14
 
 type c14Result struct {
+	hung      bool // wall-clock watch expired: goroutines are stuck, the process must not go on
 	completed bool // the script ran to its end and the service was stopped
 	viol      []Violation
 	infra     string
@@ -416,7 +417,29 @@ type c14Result struct {
 	distinct  []string
 }
 
-func c14Exec(t *testing.T, p *Plan) (r *c14Result) {
+// c14Exec runs one script against the assembled service under a wall-clock watch: inside a bubble everything that waits
+// for time or for the network is simulated, so a run that takes two minutes of real time is stuck on something that is
+// neither (a lock order inversion, say) - and such a bubble cannot be left any more.
+func c14Exec(t *testing.T, p *Plan) *c14Result {
+	done := make(chan *c14Result, 1)
+	go func() { done <- c14ExecInBubble(t, p) }()
+	for i := 0; i < 120; i++ {
+		select {
+		case r := <-done:
+			return r
+		case <-time.After(time.Second):
+		}
+	}
+	select {
+	case r := <-done:
+		return r
+	default:
+	}
+	return &c14Result{stats: newStats(), hung: true, viol: []Violation{{Class: "not_caught_up", Sig: "not_caught_up/service_hung",
+		Detail: "the run did not finish within 120 s of wall-clock time (simulated time and the network cannot explain that: the clock is fake): the service is stuck on a lock, or spins"}}}
+}
+
+func c14ExecInBubble(t *testing.T, p *Plan) (r *c14Result) {
 	r = &c14Result{stats: newStats()}
 	defer func() {
 		if x := recover(); x != nil {
@@ -857,7 +880,7 @@ func init() {
 				out.Events = r.events
 				return out
 			}
-			out.Viol, out.Stats, out.Events = r.viol, r.stats, r.events
+			out.Viol, out.Stats, out.Events, out.Hung = r.viol, r.stats, r.events, r.hung
 			var shape []string
 			for _, o := range p.Ops {
 				s := o.K
